@@ -32,19 +32,100 @@ theorem pSeq_enc (specs : List (List Tm × Tm)) (xs : List Txt) (h : LxAll specs
       simp only [LxAll] at h
       simp only [List.cons_append, pSeq, expect_enc s t x h.1 _ R hR, ih xs h.2]
 
-/-! ### skipped regions, printed as `{ }` -/
-theorem pIgn_close (n : Nat) (ts : List Txt) (R : List Char) (hR : WsHead R) :
-    pIgn (n + 1) 0 true (enc (K .Rbrace :: ts) ++ R) = some ([], enc ts ++ R) := by
-  simp [pIgn, next_enc sIgA _ _ (Lx_lit sIgA .Rbrace (by decide)) ts R hR]
-
+/-! ### skipped regions -/
 theorem Lx_lbrace (s : List Tm) (hs : s = sLbrace ∨ s = sAfterQ ∨ s = sAfterSgQuote ∨ s = sAfterFloat) :
     Lx s (.lit .Lbrace) (K .Lbrace) := by
   rcases hs with rfl | rfl | rfl | rfl <;> exact Lx_lit _ _ (by decide)
 
-theorem pBraceIgn_enc (n : Nat) (s : List Tm) (hs : s = sLbrace ∨ s = sAfterQ) (ts : List Txt) (R : List Char) (hR : WsHead R) :
-    pBraceIgn (n + 1) s (enc (ignToks ++ ts) ++ R) = some ([], enc ts ++ R) := by
+/-- a text run followed directly by the brace that ends it -/
+theorem next_nob (t : Txt) (h : vNob t = true) (b : Char) (hb : b = '{' ∨ b = '}') (X : List Char) :
+    next L sIgA (' ' :: (t ++ b :: X)) = some (.tok .nob t, b :: X) := by
+  cases t with
+  | nil => simp [vNob] at h
+  | cons c0 t' =>
+    simp only [vNob, Bool.and_eq_true, List.all_eq_true] at h
+    have hp := plus_append isNob (c0 :: t') (b :: X) (by simp) h.2
+      (by intro c r e; cases e; rcases hb with rfl | rfl <;> decide)
+    simp only [List.cons_append] at hp ⊢
+    rw [sIgA, next_skip _ c0 _ h.1]
+    exact next_tok L _ _ .nob _ _ (by simp [first, L, Tm.run, ignM_solid c0 _ h.1, hp]) rfl (by simp)
+
+/-- a brace directly behind a text run -/
+theorem next_brace_direct (k : Kw) (hk : k = .Lbrace ∨ k = .Rbrace) (X : List Char) :
+    next L sIgB (k.chars ++ X) = some (.tok (.lit k) k.chars, X) := by
+  rcases hk with rfl | rfl
+  · exact next_tok L _ _ (.lit .Lbrace) _ _
+      (by simp [sIgB, first, L, Tm.run, ignM_solid '{' X (by decide), TextLex.lit, stripPrefix, Kw.chars]) rfl (by simp [Kw.chars])
+  · exact next_tok L _ _ (.lit .Rbrace) _ _
+      (by simp [sIgB, first, L, Tm.run, ignM_solid '}' X (by decide), TextLex.lit, stripPrefix, Kw.chars]) rfl (by simp [Kw.chars])
+
+theorem pIgn_chunks (ts : List Txt) (R : List Char) (hR : WsHead R) (ig : List IgnTok) :
+    ∀ d n, ig.length < n →
+      (ignOK d true ig = true → pIgn n d true (enc (ignChunks ig ++ ts) ++ R) = some (ig, enc ts ++ R)) ∧
+      (ignOK d false ig = true → ∃ c cs, ignChunks ig = c :: cs ∧ (c = K .Lbrace ∨ c = K .Rbrace) ∧
+        pIgn n d false (c ++ (enc (cs ++ ts) ++ R)) = some (ig, enc ts ++ R)) := by
+  have hL := Lx_lit sIgA .Lbrace (by decide)
+  have hRb := Lx_lit sIgA .Rbrace (by decide)
+  induction ig with
+  | nil =>
+    intro d n hn
+    cases n with
+    | zero => cases hn
+    | succ n =>
+      refine ⟨fun h => ?_, fun h => ⟨K .Rbrace, [], rfl, Or.inr rfl, ?_⟩⟩
+      · have hd : d = 0 := by simpa [ignOK] using h
+        subst hd
+        simp [ignChunks, pIgn, next_enc sIgA _ _ hRb ts R hR]
+      · have hd : d = 0 := by simpa [ignOK] using h
+        subst hd
+        simp [pIgn, next_brace_direct .Rbrace (Or.inr rfl)]
+  | cons tk r ih =>
+    intro d n hn
+    cases n with
+    | zero => cases hn
+    | succ n =>
+      have hn' : r.length < n := by simp only [List.length_cons] at hn; omega
+      cases tk with
+      | opn =>
+        have ih1 := (ih (d + 1) n hn').1
+        refine ⟨fun h => ?_, fun h => ⟨K .Lbrace, ignChunks r, rfl, Or.inl rfl, ?_⟩⟩
+        · have h' : ignOK (d + 1) true r = true := by simpa [ignOK] using h
+          simp only [ignChunks, List.cons_append, pIgn, ↓reduceIte, next_enc sIgA _ _ hL _ R hR, ih1 h', Option.map_some]
+        · have h' : ignOK (d + 1) true r = true := by simpa [ignOK] using h
+          simp only [pIgn, Bool.false_eq_true, ↓reduceIte, next_brace_direct .Lbrace (Or.inl rfl), ih1 h', Option.map_some]
+      | cls =>
+        cases d with
+        | zero => exact ⟨fun h => by simp [ignOK] at h, fun h => by simp [ignOK] at h⟩
+        | succ d =>
+          have ih1 := (ih d n hn').1
+          refine ⟨fun h => ?_, fun h => ⟨K .Rbrace, ignChunks r, rfl, Or.inr rfl, ?_⟩⟩
+          · have h' : ignOK d true r = true := by simpa [ignOK] using h
+            simp only [ignChunks, List.cons_append, pIgn, ↓reduceIte, next_enc sIgA _ _ hRb _ R hR, ih1 h', Option.map_some]
+          · have h' : ignOK d true r = true := by simpa [ignOK] using h
+            simp only [pIgn, Bool.false_eq_true, ↓reduceIte, next_brace_direct .Rbrace (Or.inr rfl), ih1 h', Option.map_some]
+      | nob t =>
+        refine ⟨fun h => ?_, fun h => by simp [ignOK] at h⟩
+        simp only [ignOK, Bool.true_and, Bool.and_eq_true] at h
+        obtain ⟨c, cs, hc, hb, hp⟩ := (ih d n hn').2 h.2
+        have hb' : ∃ b, c = [b] ∧ (b = '{' ∨ b = '}') := by
+          rcases hb with rfl | rfl
+          · exact ⟨'{', rfl, Or.inl rfl⟩
+          · exact ⟨'}', rfl, Or.inr rfl⟩
+        obtain ⟨b, rfl, hbb⟩ := hb'
+        have e : enc (ignChunks (.nob t :: r) ++ ts) ++ R = ' ' :: (t ++ b :: (enc (cs ++ ts) ++ R)) := by
+          simp [ignChunks, hc, enc]
+        rw [e]
+        simp only [pIgn, ↓reduceIte, next_nob t h.1 b hbb]
+        simp only [List.cons_append, List.nil_append] at hp
+        simp only [hp, Option.map_some]
+
+/-- `"{" body "}"` with the `{` scanned in state `s` -/
+theorem pBraceIgn_enc (N : Nat) (s : List Tm) (hs : s = sLbrace ∨ s = sAfterQ) (ig : List IgnTok) (h : vIgn ig = true)
+    (hN : ig.length < N) (ts : List Txt) (R : List Char) (hR : WsHead R) :
+    pBraceIgn N s (enc (ignToks ig ++ ts) ++ R) = some (ig, enc ts ++ R) := by
   have hl := Lx_lbrace s (by rcases hs with h | h <;> simp [h])
-  simp only [pBraceIgn, ignToks, List.cons_append, List.nil_append, expect_enc s _ _ hl _ R hR, pIgn_close n ts R hR]
+  simp only [pBraceIgn, ignToks, List.cons_append, expect_enc s _ _ hl _ R hR]
+  exact (pIgn_chunks ts R hR ig 0 N hN).1 h
 
 /-! ### signal groups -/
 def memToks (more : List Txt) : List Txt := more.flatMap fun q => [K .Plus, q]
@@ -105,7 +186,7 @@ theorem gsHead_cases (gs : List Group) : (∃ q, gsHead gs = .tok .quoted q) ∨
   | cons g gs => exact Or.inl ⟨g.name, rfl⟩
 
 theorem pGroups_enc (N : Nat) (ts : List Txt) (R : List Char) (hR : WsHead R) (gs : List Group)
-    (h : gs.all Group.valid = true) (hfit : ∀ g ∈ gs, g.more.length < N) (hN : 0 < N) :
+    (h : gs.all Group.valid = true) (hfit : ∀ g ∈ gs, g.more.length < N ∧ (g.ign.getD []).length < N) (hN : 0 < N) :
     ∀ n, gs.length < n → pGroups N n (gsHead gs) (enc (gsTail gs ++ ts) ++ R) = some (gs, enc ts ++ R) := by
   induction gs with
   | nil =>
@@ -141,7 +222,7 @@ theorem pGroups_enc (N : Nat) (ts : List Txt) (R : List Char) (hR : WsHead R) (g
       simp only [List.cons_append, List.nil_append] at hs'
       rw [hs']
       simp only
-      rw [hm _ R hR more hmore (N' + 1) hfitg]
+      rw [hm _ R hR more hmore (N' + 1) hfitg.1]
       simp only
       rcases gsHead_cases gs with ⟨q, hq⟩ | hq
       all_goals
@@ -153,15 +234,15 @@ theorem pGroups_enc (N : Nat) (ts : List Txt) (R : List Char) (hR : WsHead R) (g
             simp only [ignOptToks, semiToks, List.nil_append, Bool.false_eq_true, ↓reduceIte, hhead sAfterSgQuote (Or.inr (Or.inl rfl)), hq, ih', Option.map_some]
             first | rfl | (rw [hq] at ih'; simp only [ih', Option.map_some])
         | some ig =>
-          have : ig = [] := by simpa [vIgn] using hign
-          subst this
+          have hig : ignOK 0 true ig = true := hign
+          have hI := fun T => (pIgn_chunks T R hR ig 0 (N' + 1) hfitg.2).1 hig
           cases semi with
           | true =>
-            simp only [ignOptToks, semiToks, ignToks, List.cons_append, List.nil_append, ↓reduceIte, hlb _ R hR, pIgn_close N' _ R hR, hsemi2 _ R hR,
-              hhead sItem (Or.inl rfl), ih', Option.map_some]
+            simp only [ignOptToks, semiToks, ignToks, List.cons_append, List.append_assoc, List.nil_append, ↓reduceIte, hlb _ R hR,
+              hI, hsemi2 _ R hR, hhead sItem (Or.inl rfl), ih', Option.map_some]
           | false =>
-            simp only [ignOptToks, semiToks, ignToks, List.cons_append, List.nil_append, Bool.false_eq_true, ↓reduceIte, hlb _ R hR, pIgn_close N' _ R hR,
-              hhead sAfterIgn (Or.inr (Or.inr rfl)), hq]
+            simp only [ignOptToks, semiToks, ignToks, List.cons_append, List.append_assoc, List.nil_append, Bool.false_eq_true,
+              ↓reduceIte, hlb _ R hR, hI, hhead sAfterIgn (Or.inr (Or.inr rfl)), hq]
             first | rfl | (rw [hq] at ih'; simp only [ih', Option.map_some])
 
 /-! ### scan chains -/
@@ -323,6 +404,8 @@ theorem Lx_patitem_q (st : List Tm) (hst : st = sPatItem ∨ st = sAfterIgn) (q 
 
 def PatItem.fit (N : Nat) : PatItem → Prop
   | .call _ ps => ps.length < N
+  | .c ig => ig.length < N
+  | .ann ig => ig.length < N
   | _ => True
 
 theorem pPatItems_enc (N : Nat) (ts : List Txt) (R : List Char) (hR : WsHead R) (its : List PatItem)
@@ -359,16 +442,14 @@ theorem pPatItems_enc (N : Nat) (ts : List Txt) (R : List Char) (hR : WsHead R) 
         simp only [List.flatMap_cons, PatItem.toks, List.cons_append, List.nil_append, pPatItems,
           next_enc _ _ _ (Lx_patitem_lit st hst .Macro (by simp)) _ R hR, name_enc q hv _ R hR, ih1, Option.map_some]
       | c ig =>
-        have hv : ig = [] := by simpa [PatItem.valid, vIgn] using h.1
-        subst hv
+        have hv : vIgn ig = true := h.1
         simp only [List.flatMap_cons, PatItem.toks, List.cons_append, List.append_assoc, pPatItems,
-          next_enc _ _ _ (Lx_patitem_lit st hst .C (by simp)) _ R hR, pBraceIgn_enc N sLbrace (Or.inl rfl) _ R hR, ih2,
+          next_enc _ _ _ (Lx_patitem_lit st hst .C (by simp)) _ R hR, pBraceIgn_enc (N + 1) sLbrace (Or.inl rfl) ig hv hf _ R hR, ih2,
           Option.map_some]
       | ann ig =>
-        have hv : ig = [] := by simpa [PatItem.valid, vIgn] using h.1
-        subst hv
+        have hv : vIgn ig = true := h.1
         simp only [List.flatMap_cons, PatItem.toks, List.cons_append, List.append_assoc, pPatItems,
-          next_enc _ _ _ (Lx_patitem_lit st hst .Ann (by simp)) _ R hR, pBraceIgn_enc N sLbrace (Or.inl rfl) _ R hR, ih2,
+          next_enc _ _ _ (Lx_patitem_lit st hst .Ann (by simp)) _ R hR, pBraceIgn_enc (N + 1) sLbrace (Or.inl rfl) ig hv hf _ R hR, ih2,
           Option.map_some]
       | call name ps =>
         have hv : (vQ name && ps.all fun p => vQ p.1 && vValue p.2) = true := h.1
